@@ -10,26 +10,55 @@ set_option linter.unusedVariables false
 namespace RingBuffer
 open Extracted.RingBuffer
 
-/-! ### Meaning of the translated conditions (independent of the order of `and` / `or` operands in the source) -/
+/-! ### Meaning of the translated conditions and expressions
+
+The generated definitions are opaque `def`s; every proof below goes through these lemmas, which are proved by
+`unfold; omega` (or a case split on the `Bool`) and therefore hold for ANY spelling of the same condition in the
+source (operand order, `>` vs `<`, `not (… and …)` vs `… or …`, …). -/
+
+theorem gapContains_iff (s e t : Int) : gapContains s e t ↔ (s ≤ t ∧ t < e) := by unfold gapContains; omega
 
 theorem updReject_iff (t o : Int) (b : Bool) : updReject t o b ↔ (t < o ∧ b = false) := by
-  unfold updReject; constructor <;> intro h <;> exact ⟨by first | exact h.1 | exact h.2, by first | exact h.2 | exact h.1⟩
+  unfold updReject; cases b <;> simp
+
+theorem updNewest_eq (n t : Int) : updNewest n t = max n t := by unfold updNewest; omega
+theorem updOldest_eq (n fr p : Int) : updOldest n fr p = n - (fr - p) := by unfold updOldest; omega
+
+theorem ugJump_iff (sn n fr : Int) : ugJump sn n fr ↔ sn - n ≥ fr := by unfold ugJump; omega
+theorem ugJumpStart_eq (o sn : Int) : ugJumpStart o sn = o := by unfold ugJumpStart; omega
+theorem ugJumpEnd_eq (o sn : Int) : ugJumpEnd o sn = sn := by unfold ugJumpEnd; omega
 
 theorem ugCreated_iff (found : Bool) (t n p : Int) : ugCreated found t n p ↔ (found = false ∧ t > n + p) := by
   unfold ugCreated
   cases found <;> simp
 
+theorem ugCreatedStart_eq (t n p : Int) : ugCreatedStart t n p = n + p := by unfold ugCreatedStart; omega
+theorem ugCreatedEnd_eq (t n p : Int) : ugCreatedEnd t n p = t := by unfold ugCreatedEnd; omega
+theorem ugMissingStart_eq (t n p : Int) : ugMissingStart t n p = min (n + p) t := by unfold ugMissingStart; omega
+theorem ugMissingEnd_eq (t n p : Int) : ugMissingEnd t n p = t + p := by unfold ugMissingEnd; omega
+
+theorem clOutdated_iff (s e o : Int) : clOutdated s e o ↔ e ≤ o := by unfold clOutdated; omega
+theorem clRolled_iff (s e o : Int) : clRolled s e o ↔ s < o := by unfold clRolled; omega
+theorem clSubset_iff (s e s2 e2 : Int) : clSubset s e s2 e2 ↔ (s ≤ s2 ∧ e ≥ e2) := by unfold clSubset; omega
+theorem clNeighbor_iff (s e s2 e2 : Int) : clNeighbor s e s2 e2 ↔ e ≥ s2 := by unfold clNeighbor; omega
+
+theorem rgAtStart_iff (gs ge t p : Int) : rgAtStart gs ge t p ↔ gs = t := by unfold rgAtStart; omega
+theorem rgWhole_iff (gs ge t p : Int) : rgWhole gs ge t p ↔ ge = t + p := by unfold rgWhole; omega
+theorem rgAtEnd_iff (gs ge t p : Int) : rgAtEnd gs ge t p ↔ ge - p = t := by unfold rgAtEnd; omega
+theorem rgAfter_eq (t p : Int) : rgAfter t p = t + p := by unfold rgAfter; omega
+theorem rgAfterSplit_eq (t p : Int) : rgAfterSplit t p = t + p := by unfold rgAfterSplit; omega
+
 /-! ### Membership -/
 
 theorem isMissing_iff (l : List Gap) (k : Int) :
     isMissing l k = true ↔ ∃ g ∈ l, g.1 ≤ k ∧ k < g.2 := by
-  simp [isMissing, List.any_eq_true, gapContains]
+  simp [isMissing, List.any_eq_true, gapContains_iff]
 
 theorem isMissing_nil (k : Int) : isMissing [] k = false := rfl
 
 theorem isMissing_cons (g : Gap) (l : List Gap) (k : Int) :
     isMissing (g :: l) k = (decide (g.1 ≤ k ∧ k < g.2) || isMissing l k) := by
-  simp [isMissing, gapContains]
+  simp [isMissing, gapContains_iff]
 
 theorem isMissing_append (l₁ l₂ : List Gap) (k : Int) :
     isMissing (l₁ ++ l₂) k = (isMissing l₁ k || isMissing l₂ k) := by
@@ -162,7 +191,7 @@ theorem removeGap_spec (l : List Gap) (t : Int) (hod : OD l) (hne : NE l) :
     have hlb : LB g.2 gs := fun x hx => hg x hx
     have hsd' : SD gs := OD.sd hod'
     unfold removeGap
-    simp only [gapContains, rgAtStart, rgWhole, rgAtEnd, rgAfter, rgAfterSplit]
+    simp only [gapContains_iff, rgAtStart_iff, rgWhole_iff, rgAtEnd_iff, rgAfter_eq, rgAfterSplit_eq]
     by_cases hc : g.1 ≤ t ∧ t < g.2
     · simp only [hc, and_self, if_true]
       by_cases h1 : g.1 = t
@@ -360,7 +389,7 @@ theorem cleanupLoop_spec (o : Int) : ∀ (fuel : Nat) (l : List Gap), mu o l ≤
       have hner : NE rest := fun x hx => hne x (List.mem_cons_of_mem _ hx)
       have hw1 : w1.1 < w1.2 := hne w1 (List.mem_cons_self ..)
       unfold cleanupLoop
-      simp only [clOutdated, clRolled, clNeighbor]
+      simp only [clOutdated_iff, clRolled_iff, clNeighbor_iff]
       by_cases hA : w1.2 ≤ o
       · -- outdated: deleted
         simp only [hA, if_true]
@@ -419,7 +448,7 @@ theorem cleanupLoop_spec (o : Int) : ∀ (fuel : Nat) (l : List Gap), mu o l ≤
             have hw2 : w2.1 < w2.2 := hner w2 (List.mem_cons_self ..)
             rw [List.pairwise_cons] at hodr
             obtain ⟨h2r, hodr'⟩ := hodr
-            have hC : ¬ clSubset w1.1 w1.2 w2.1 w2.2 := by unfold clSubset; omega
+            have hC : ¬ clSubset w1.1 w1.2 w2.1 w2.2 := by rw [clSubset_iff]; omega
             rw [if_neg hC]
             rw [mu_cons] at hmu
             by_cases hD : w1.2 ≥ w2.1
@@ -560,7 +589,7 @@ theorem updateGaps_spec (cap : Nat) (hcap : 1 ≤ cap) (gaps : List Gap) (t prev
         have hout : out = [(o', n')] := by
           show updateGaps cap gaps t prev n' o' false = _
           unfold updateGaps
-          simp only [ugJump, ugJumpStart, ugJumpEnd, hj, and_self, if_true]
+          simp only [ugJump_iff, ugJumpStart_eq, ugJumpEnd_eq, hj, and_self, if_true]
         have hnt : n' = t := by omega
         refine ⟨?_, ?_⟩
         · by_cases hc1 : cap = 1
@@ -591,7 +620,7 @@ theorem updateGaps_spec (cap : Nat) (hcap : 1 ≤ cap) (gaps : List Gap) (t prev
           have hout : out = cleanupGaps o' (gaps ++ [(prev + 1, t)]) := by
             show updateGaps cap gaps t prev n' o' false = _
             unfold updateGaps
-            simp only [ugJump, ugCreated_iff, ugCreatedStart, ugCreatedEnd, hj, hf, hcr, and_false, if_false,
+            simp only [ugJump_iff, ugCreated_iff, ugCreatedStart_eq, ugCreatedEnd_eq, hj, hf, hcr, and_false, if_false,
               Bool.false_eq_true, not_false_eq_true, and_self, if_true]
           rw [hout]
           apply fin
@@ -625,7 +654,7 @@ theorem updateGaps_spec (cap : Nat) (hcap : 1 ≤ cap) (gaps : List Gap) (t prev
           have hout : out = cleanupGaps o' gaps := by
             show updateGaps cap gaps t prev n' o' false = _
             unfold updateGaps
-            simp only [ugJump, ugCreated_iff, hj, hf, hcr, and_false, if_false, Bool.false_eq_true]
+            simp only [ugJump_iff, ugCreated_iff, hj, hf, hcr, and_false, if_false, Bool.false_eq_true]
           rw [hout]
           apply fin _ hsd hne hubn
           intro k hk1 hk2
@@ -641,7 +670,7 @@ theorem updateGaps_spec (cap : Nat) (hcap : 1 ≤ cap) (gaps : List Gap) (t prev
       have hout : out = cleanupGaps o' (gaps ++ [(min (prev + 1) t, t + 1)]) := by
         show updateGaps cap gaps t prev n' o' true = _
         unfold updateGaps
-        simp only [ugMissingStart, ugMissingEnd, hf, Bool.true_eq_false, false_and, if_false, if_true]
+        simp only [ugMissingStart_eq, ugMissingEnd_eq, hf, Bool.true_eq_false, false_and, if_false, if_true]
       rw [hout]
       apply fin
       · apply sd_append_single hsd
@@ -685,7 +714,7 @@ theorem updateGaps_spec (cap : Nat) (hcap : 1 ≤ cap) (gaps : List Gap) (t prev
       have hout : out = cleanupGaps o' (removeGap gaps t) := by
         show updateGaps cap gaps t prev n' o' false = _
         unfold updateGaps
-        simp only [ugJump, ugCreated_iff, hj, hf, and_false, if_false, not_true_eq_false, false_and,
+        simp only [ugJump_iff, ugCreated_iff, hj, hf, and_false, if_false, not_true_eq_false, false_and,
           Bool.false_eq_true, Bool.true_eq_false, hlen, and_self, if_true, true_and, and_true]
       obtain ⟨r1, r2, r3, r4, _⟩ := removeGap_spec gaps t hN.od hne
       rw [hout]
